@@ -6,9 +6,15 @@ PARTIAL = [
     "every result of the *model's* legalization (`constructor_ok_after_legalize`: C01 domain + `legalizeWith` returns c' => "
     "`fromIspdCircuit c'` returns normally with Inv and all cells placed; uses C01's `legalizeWith_legal` and C04's "
     "`legalizeWith_orient`), and for the primitives (`swap_never_throws`, `insert_never_throws`: a move accepted by "
-    "canSwap/canInsert is carried out, canPlace inside included).  Not proved: that the optimiser's loops (runSwaps/runInserts/"
-    "runShifts/RowReordering and the incremental net model) call the primitives only with arguments inside the contract and "
-    "raise no exception of their own; this is tied by the hook-H3 history replay + the direct oracle (placeDetailed, and every "
+    "canSwap/canInsert is carried out, canPlace inside included).  The optimiser's loops: the candidate enumeration of runSwaps/runInserts "
+    "(RowNeighbourhood, windows, walks) and RowReordering's enumeration are now modelled (Model/DetSearch.lean, DetReorder.lean, built with C05) and it is "
+    "proved that every swap/insert the modelled loops issue was answered true by canSwap/canInsert in the state it is applied to (C05 "
+    "`scan_calls_within_contract`, so swap_never_throws/insert_never_throws apply), that RowReordering registers distinct valid cells (C05 "
+    "`reorder_window_registered`), and that on an Inv placement (object in sync, every optimised cell placed) the modelled runSwaps, runInserts and runReordering "
+    "return normally with Inv — no exception of canSwap/canInsert/canPlace/place/cellsBetween, `place` inside RowReordering::writeback accepts the kept leaf, the "
+    "bestSwapUpdate loops terminate (C05 `passes_never_fail`; Proofs/DetSearchTotal.lean, DetReorderTotal.lean, DetReorderWriteback.lean).  Not proved: "
+    "runShifts (lemon), the incremental net model's own checks, and that the C++ loops are the modelled ones — tied by the pass-level generation of C05 "
+    "(the model must reproduce the hook-H3 move log of every pass) + the direct oracle (placeDetailed, and every "
     "public pass of DetailedPlacer driven directly with arbitrary window arguments, must neither throw nor abort whenever "
     "legalize alone succeeded and returned a legal placement)",
     "`inv_init`, `inv_legal`, `init_of_legal` on an arbitrary circuit assume that no movable cell carries the orientation INVALID "
@@ -17,9 +23,10 @@ PARTIAL = [
     "`detailed_legal_after_legalize` has no such hypothesis",
     "lemon NetworkSimplex returning potentials that satisfy the arc constraints is assumed: the model's `shift` re-checks every "
     "update, the code does not; a violation would be caught on explored runs (history replay + legality oracle), not excluded for all",
-    "that the optimiser's loops only perform the modelled primitive moves is tied by the hook-H3 history replay on explored runs, "
-    "not proved; RowReordering's contract (registered cells are placed optimised cells, predecessors stay placed) is checked "
-    "dynamically by the model (`Err.guard`) rather than derived from addCells",
+    "that the optimiser's loops only perform the modelled primitive moves is tied by the hook-H3 history replay on explored runs (and, in C05, by "
+    "regenerating the moves of every pass from the modelled loops), not proved for the C++; RowReordering's contract: registered cells are distinct valid "
+    "placed cells is now derived from addCells on Inv placements (C05 `reorder_window_registered`); that predecessors stay placed during the write-back is "
+    "still checked dynamically by the model (`Err.guard`)",
     "`inv_legal` / `detailed_legal_after_legalize` speak about the model's `exportPlacement` of any reachable model state; that "
     "each Detailed callback exposes exactly such a state is the history-replay tie (model export == exposed placement at every "
     "callback and on return), and that placeDetailed starts from the model's legalization result is C01's correspondence",
